@@ -29,3 +29,96 @@ def answer_with_result_code_shape():
                  idict={"_header": header_shape(), "_avps": T.ListOf(result_code_avp_shape()),
                         "_loaded": T.Const(False)},
                  alias={"result_code_avp": ("_avps", 0)})
+
+
+# =========================================================================================
+#  RFC 6733 reference encoder (written from the RFC / the property statement, not the code)
+# =========================================================================================
+MAX24 = 16777216
+
+
+def enc_avp(code, flags, vendor, data):
+    """RFC 6733 section 4.1: AVP Code (4), Flags (1), AVP Length (3) = header + data WITHOUT
+    padding, Vendor-ID (4) iff present, data, zero padding to a 4-byte boundary.
+    `vendor` is None or 4 bytes; `data` is bytes (possibly empty)."""
+    if vendor is None:
+        hl = 8
+    else:
+        hl = 12
+    n = len(data)
+    pad = (4 - n % 4) % 4
+    out = code + flags + be(hl + n, 3)
+    if vendor is not None:
+        out = out + vendor
+    return out + data + zeros(pad)
+
+
+def avp_len(vendor, data):
+    """value of the AVP Length field"""
+    if vendor is None:
+        return 8 + len(data)
+    return 12 + len(data)
+
+
+def avp_plen(vendor, data):
+    """octets the AVP occupies on the wire (length + padding)"""
+    n = len(data)
+    return avp_len(vendor, data) + (4 - n % 4) % 4
+
+
+def data_of(a):
+    """data bytes of an AVP object (None / empty -> b'')"""
+    d = slot(a, "_data")
+    if d is None or d is UNSET:
+        return b""
+    return d
+
+
+def view_code(a):
+    return raw(a, "code")
+
+
+def view_vendor(a):
+    return raw(a, "vendor_id")
+
+
+def enc_of(a):
+    """reference encoding of the AVP object's abstract view (code, flags, vendor, data)"""
+    return enc_avp(view_code(a), a._flags, view_vendor(a), data_of(a))
+
+
+def enc_hdr(version, length, flags, cmd, app, hbh, e2e):
+    """RFC 6733 section 3: the 20-byte Diameter header"""
+    return version + length + flags + cmd + app + hbh + e2e
+
+
+# ----------------------------------------------------------------------------- AVP shapes
+def generic_avp_shape(data=None, vendor=None):
+    """exact DiameterAVP instance satisfying the representation invariant:
+    code 4 bytes, flags 1 byte, vendor None|4 bytes, data None|bytes"""
+    return T.Obj(B.DiameterAVP, slots={
+        "_code": T.Bytes(4), "_flags": T.Bytes(1),
+        "_vendor_id": vendor if vendor is not None else T.OneOf(T.NoneS, T.Bytes(4)),
+        "_data": data if data is not None else T.OneOf(T.NoneS, T.Bytes()),
+        "_padding": T.NoneS})
+
+
+def dict_avp_shape(cls=None, data=None, vendor=None):
+    """schematic dictionary-class instance: the class attributes `code`/`vendor_id` shadow the
+    DiameterAVP properties, so those two live in the instance dict; everything else is inherited
+    (checked for all registered classes by the C10 override scan)"""
+    from bromelia.avps.ietf.rfc6733 import UserNameAVP
+    return T.Obj(cls or UserNameAVP, slots={
+        "_flags": T.Bytes(1),
+        "_vendor_id": T.OneOf(T.NoneS, T.Bytes(4)),
+        "_data": data if data is not None else T.OneOf(T.NoneS, T.Bytes()),
+        "_padding": T.NoneS},
+        idict={"code": T.Bytes(4),
+               "vendor_id": vendor if vendor is not None else T.OneOf(T.NoneS, T.Bytes(4))})
+
+
+def any_avp_shape():
+    return T.OneOf(generic_avp_shape(), dict_avp_shape())
+
+
+ANY_VALUE = lambda: T.OneOf(T.Int(), T.Bytes(), T.NoneS, T.Str(), T.Bool(), T.OpaqueS())   # noqa: E731
